@@ -20,7 +20,11 @@ from .machines import real_fullfsync
 
 
 class RepackMachine(Machine):
-    def __init__(self, ctx, g, require_durable, rule='C05.R4', rule_durable='C06.R4', exc=False):
+    def __init__(self, ctx, g, require_durable, rule='C05.R4', rule_durable='C06.R4', exc=False, require_rewrite=False):
+        # require_rewrite (C11 only): a normal return must have rewritten or removed the pack, unless the path compared the pack file's
+        # size (a stat of the pack's own file), i.e. it can know that the file holds no unreferenced bytes
+        self.require_rewrite = require_rewrite
+        self.sized_nodes = set()
         self.ctx = ctx
         self.K = ctx.kinds
         self.E = ctx.effects
@@ -115,10 +119,17 @@ class RepackMachine(Machine):
             return not any(c.startswith('func.') and not c.startswith('func.count') for c in cols) or False
         return cols in (['func.count()'], ['func.count(Obj.id)'], ['Obj.id'])
 
+    @property
+    def _path_sized(self):
+        return bool(self.sized_nodes)
+
     def transfer(self, node, st, g):
         idx, pending, P, tmp, tmpD, refs = st
         viol = []
         K = self.K
+        for e0 in self.E.of(node):
+            if e0[0] == 'STAT' and self._own(e0[1]):
+                self.sized_nodes.add(node.id)
         for e in self.E.of(node):
             n = e[0]
             if n == 'H_WRITE' and e[1][0] == 'handle' and self._tmp(e[1][1]):
@@ -183,7 +194,7 @@ class RepackMachine(Machine):
         idx, pending, P, tmp, tmpD, refs = st
         out = []
         if node is g.exit:
-            if idx == 'old' and P == 'orig':
+            if self.require_rewrite and idx == 'old' and P == 'orig' and not self._path_sized:
                 out.append(Violation(self.rule, node, st, 'repack_pack returns normally without having rewritten (or removed) the pack: bytes that no index row references, e.g. those of deleted '
                                      'objects, stay in the pack file'))
             if idx == 'tmp':
